@@ -18,6 +18,13 @@ fn f_hop_fold(i: &I) -> O {
 fn f_hop_count(i: &I) -> O {
     vec![vec![vi(i[0].len() as i64)]]
 }
+fn f_lossy(i: &I) -> O {
+    let mut acc: i32 = 0;
+    for x in ints(&i[0]) {
+        acc = acc.wrapping_add((x as i32).wrapping_mul(x as i32));
+    }
+    vec![sorted(i[0].clone()), vec![vi(acc as i64)]]
+}
 fn f_roundtrip(i: &I) -> O {
     vec![vints(crate::p28::running(&ints(&i[0])))]
 }
@@ -57,6 +64,7 @@ macro_rules! e {
 e!(N_HOP, n_hop, x_n_hop, &[Shape::Int], &[OutKind::Seq], f_hop, 1, 2);
 e!(N_HOP_FOLD, n_hop_fold, x_n_hop_fold, &[Shape::Int], &[OutKind::SnapOne], f_hop_fold, 1, 2);
 e!(N_HOP_COUNT, n_hop_count, x_n_hop_count, &[Shape::Int], &[OutKind::SnapOne], f_hop_count, 1, 2);
+e!(N_LOSSY, n_lossy, x_n_lossy, &[Shape::Int], &[OutKind::Bag, OutKind::SnapOne], f_lossy, 1, 2);
 e!(N_ROUNDTRIP, n_roundtrip, x_n_roundtrip, &[Shape::Int], &[OutKind::Seq], f_roundtrip, 2, 2);
 e!(N_FANIN, n_fanin, x_n_fanin, &[Shape::Int, Shape::Int], &[OutKind::Bag], f_fanin, 1, 3);
 e!(N_M2O, n_m2o, x_n_m2o, &[Shape::Int, Shape::Int], &[OutKind::SnapBag], f_m2o, 1, 3);
